@@ -1162,6 +1162,58 @@ static void run_shapes(Ctx& ctx) {
             if (!ok) ctx.fail("arange", fmt("arange(%d.0)=%s", cnt, show(r).c_str()), fmt("0..%d", cnt - 1));
         }
     }
+    // long fractional arange with non-dyadic steps: element k = start + k*step (the mathematical value for the double
+    // arguments, evaluated in long double) within 8 eps * max(|start|, |k*step|, |result|): an element must not carry an
+    // error that grows with its index.  stop = start + count*step rounded to double, so (stop-start)/step is integral up
+    // to rounding; where the library's count differs from `count` by one the case is ambiguous and only counted.
+    {
+        const double steps[6] = {0.1, 0.01, 0.6, 1.0 / 3, -0.7, 1e-3}, starts[4] = {0, -5, 2.5, 1e6};
+        std::vector<int> counts = {100, 1000, 10000};
+        if (g_thorough) counts.push_back(100000);
+        for (double st : starts)
+            for (double sp : steps)
+                for (int cnt : counts) {
+                    if (!ctx.take("shape.arange.long", P().kv("start", st).kv("step", sp).kv("count", cnt))) continue;
+                    ctx.nontrivial();
+                    const double stop = (double)((ld)st + (ld)cnt * (ld)sp);
+                    std::vector<arr_real> rs;
+                    std::vector<const char*> names;
+                    try {
+                        rs.push_back(d::arange(st, stop, sp));
+                        names.push_back("double,double,double");
+                        if (st == std::floor(st) && std::fabs(st) < 100) {
+                            rs.push_back(d::arange((int)st, stop, sp));
+                            names.push_back("int,double,double");
+                        }
+                    } catch (const std::exception& e) {
+                        ctx.fail("arange", fmt("arange(%.17g,%.17g,%.17g) throws %s", st, stop, sp, e.what()), fmt("%d elements", cnt));
+                        continue;
+                    }
+                    for (size_t k = 0; k < rs.size(); ++k) {
+                        const arr_real& r = rs[k];
+                        if (r.size() != cnt) {
+                            if (std::abs(r.size() - cnt) == 1) ctx.note("arange.long: library count differs by one from the nominal count (ambiguous rounding, case not judged)");
+                            else ctx.fail("arange", fmt("arange<%s>(%.17g,%.17g,%.17g) has %d elements", names[k], st, stop, sp, r.size()), fmt("%d", cnt), P().kv("what", "count").kv("overload", names[k]));
+                            continue;
+                        }
+                        ctx.note("arange.long: count as nominal, elements judged");
+                        for (int i = 0; i < cnt; ++i) {
+                            const ld ref = (ld)st + (ld)i * (ld)sp;
+                            const double scale = std::max(std::max(std::fabs(st), std::fabs(i * sp)), std::fabs((double)ref));
+                            const double u = scale > 0 ? (double)(fabsl((ld)r[i] - ref) / (EPS * scale)) : (r[i] == 0 ? 0.0 : INFINITY);
+                            ctx.worst("arange(long, fractional) err/(eps*max(|start|,|k*step|,|result|))", std::isfinite(u) ? u : 1e300);
+                            if (!(u <= CTOL)) {
+                                ctx.fail("arange", fmt("arange<%s>(%.17g,%.17g,%.17g)[%d]=%.17g (%.1f rounding units)", names[k], st, stop, sp, i, r[i], u), fmt("%.20Lg", ref),
+                                         P().kv("what", "element").kv("i", i).kv("overload", names[k]));
+                                break;
+                            }
+                        }
+                        // the last element lies strictly before stop
+                        if (cnt > 0 && !(sp > 0 ? r[cnt - 1] < stop : r[cnt - 1] > stop))
+                            ctx.fail("arange", fmt("last element %.17g not before stop %.17g", r[cnt - 1], stop), "strictly before stop", P().kv("what", "last").kv("overload", names[k]));
+                    }
+                }
+    }
 }
 
 int main(int argc, char** argv) {
